@@ -309,6 +309,8 @@ var handTemplates = []string{
 	// duplicate case labels made of concatenated strings: a comment between the operands is no part of the label
 	"sub vcl_recv {\n#FASTLY RECV\nswitch (req.http.A) {\ncase «» \"a\" «» \"b\" «» :\nbreak;\ncase \"a\" \"b\":\nbreak;\n}\n}\n",
 	"sub vcl_recv {\n#FASTLY RECV\nswitch (req.http.A) {\ncase \"x\" + \"y\":\nbreak;\ncase \"x\" «» + «» \"y\" «» :\nbreak;\n}\n}\n",
+	// literals at the edge of their range behind a sign / next to a unit: a comment or a line break between the tokens changes nothing
+	"sub vcl_recv {\n#FASTLY RECV\ndeclare local var.i INTEGER;\ndeclare local var.f FLOAT;\nset var.i = «» -«»9223372036854775808 «» ;\nset var.i = -«»0x8000000000000000 «» ;\nset var.f = «» -«»1.5 «» ;\nset var.i = 9223372036854775807 «» ;\nif (var.i == -«»9223372036854775808) { }\n}\n",
 	"sub f «» STRING «» { «» return «» \"x\" «» ; «» }\nsub f «» STRING { return \"y\" ; }\nsub vcl_recv {\n#FASTLY RECV\nset req.http.A = f «» ( «» ) «» ;\ncall «» nosuch «» ;\ngoto «» lbl «» ;\n}\n",
 }
 
